@@ -114,4 +114,5 @@ contract(
     ], "locals": {"n_start": Opt(DT), "n_end": Opt(DT), "child_start": Opt(DT), "child_end": Opt(DT),
                   "child_scenario": Opt(Ref("TaskScenario"))}}},
     locals={"n_start": Opt(DT), "n_end": Opt(DT)},
+    modifies=["@start@self.property", "@end@self.property", "@scheduled@self.property", "TaskScenario.scheduled@self"],
 )
